@@ -88,6 +88,7 @@ class StubCall:
         self.fut: asyncio.Future = kit.loop.create_future()
         self.t_start = kit.loop.time()
         self.cancelled_by_caller = False
+        self.finished = False            # the awaiting coroutine has resumed (result consumed)
         self.sock: Optional[FakeSocket] = None
 
     @property
@@ -144,6 +145,8 @@ class TcpKit:
                 except asyncio.CancelledError:
                     call.cancelled_by_caller = True
                     raise
+                finally:
+                    call.finished = True
                 addrs = res if isinstance(res, list) else kit.addrs
                 return [{"hostname": host, "host": a, "port": port, "family": socket.AF_INET,
                          "proto": 0, "flags": socket.AI_NUMERICHOST} for a in addrs]
@@ -188,6 +191,8 @@ class TcpKit:
         except asyncio.CancelledError:
             call.cancelled_by_caller = True
             raise
+        finally:
+            call.finished = True
         if isinstance(res, BaseException):
             raise res
         sock.connected = True
